@@ -191,6 +191,10 @@ func main() {
 		trouble("building the worker against %s failed (the tree must compile): %v\n%s", *repo, err, out)
 	}
 	wenv := append(os.Environ(), "VERIF_TMP="+tmpDir)
+	if meta.race {
+		os.MkdirAll(filepath.Join(tmpDir, "race"), 0o755)
+		wenv = append(wenv, "GORACE=log_path="+filepath.Join(tmpDir, "race", "r")+" exitcode=0 halt_on_error=0")
+	}
 	if meta.driver {
 		drv := filepath.Join(tmpDir, "evalfilter-sim")
 		if out, err := run(verifDir, goEnv(), "go", "build", "-modfile", modfile, "-tags", "verif", "-overlay", filepath.Join(tmpDir, "overlay.json"), "-o", drv, "github.com/skx/evalfilter/v2/cmd/evalfilter"); err != nil {
@@ -272,6 +276,9 @@ func main() {
 			resFile := filepath.Join(resDir, fmt.Sprintf("shard-%d.json", sh))
 			for attempt := 0; attempt < 8; attempt++ {
 				wargs := append(append([]string{}, common...), "-shard", fmt.Sprint(sh), "-from", fmt.Sprint(from), "-skip", strings.Join(skip, ","), "-stall-s", fmt.Sprint(meta.stall))
+				if attempt > 0 {
+					wargs = append(wargs, "-no-minimise")
+				}
 				state, stderr, code := superviseWorker(worker, wargs, wenv, filepath.Join(resDir, fmt.Sprintf("shard-%d.cur", sh)), float64(budget)+120, meta.stall+15)
 				if state == "ok" {
 					return
@@ -285,6 +292,12 @@ func main() {
 				var pr shardResult
 				if b, err := os.ReadFile(partial); err == nil && json.Unmarshal(b, &pr) == nil && pr.NextCase <= idx {
 					next = pr.NextCase
+				}
+				if code == 4 {
+					// the worker reported a violation after which its process
+					// could not be reused (deadlock): just carry on
+					from = next
+					continue
 				}
 				if code == 3 {
 					// the worker itself reported a hang
@@ -402,9 +415,16 @@ func main() {
 	}
 	sort.Strings(order)
 	unlisted := 0
+	harnessTrouble := 0
 	var knownHit []string
 	for _, k := range order {
 		v := bySig[k]
+		if strings.HasSuffix(v.Class, "/harness") {
+			// the machinery caught itself misbehaving: never a VIOLATION
+			harnessTrouble++
+			fmt.Fprintf(os.Stderr, "vcheck: HARNESS TROUBLE %s [%s] %s (replay %s)\n", v.Class, v.Sig, v.Detail, v.Replay)
+			continue
+		}
 		if kf := known.match(prop, v); kf != nil {
 			fmt.Printf("KNOWN-FINDING: property=%s %s [%s] %s (seen %d times; replay %s)\n", prop, v.Class, v.Sig, kf.What, v.Count, v.Replay)
 			knownHit = append(knownHit, k)
@@ -471,6 +491,9 @@ func main() {
 	}
 	if strings.HasPrefix(selfNote, "MISMATCH") {
 		fmt.Fprintf(os.Stderr, "vcheck: determinism self-test failed: %s\n", selfNote)
+		os.Exit(2)
+	}
+	if harnessTrouble > 0 {
 		os.Exit(2)
 	}
 }
@@ -701,8 +724,8 @@ func selfTest(worker, prop, tier string, seed uint64, env []string, ref map[stri
 		cmd := exec.Command(worker, "-prop", prop, "-tier", tier, "-base", fmt.Sprint(seed), "-nshards", "1", "-shard", "0", "-selftest-only", "-out", dir, "-replays", filepath.Join(dir, "replays"))
 		cmd.Env = append(append([]string{}, env...), "GOMAXPROCS="+procs)
 		if out, err := cmd.CombinedOutput(); err != nil {
-			if ee, ok := err.(*exec.ExitError); ok && ee.ExitCode() == 3 {
-				return "cut short: a self-test case hangs (see the reported hang)"
+			if ee, ok := err.(*exec.ExitError); ok && (ee.ExitCode() == 3 || ee.ExitCode() == 4) {
+				return "cut short: a self-test case hangs or deadlocks (see the reported violation)"
 			}
 			return fmt.Sprintf("MISMATCH: self-test worker failed at GOMAXPROCS=%s: %v %s", procs, err, tail(string(out), 500))
 		}
